@@ -146,15 +146,3 @@ Proof.
     subst. vm_compute; repeat split; try discriminate; try reflexivity; intros; discriminate.
 Qed.
 
-Lemma tree_flags : Gen.C02Cfg.tree_cfg = Refutations.cfg0 \/ exists b, b = true /\
-  (fix_bz_rewind Gen.C02Cfg.tree_cfg = b \/ fix_bz_eof Gen.C02Cfg.tree_cfg = b \/ fix_here Gen.C02Cfg.tree_cfg = b \/
-   fix_text_pseudo Gen.C02Cfg.tree_cfg = b \/ fix_leak Gen.C02Cfg.tree_cfg = b \/ fix_negseek Gen.C02Cfg.tree_cfg = b).
-Proof.
-  destruct (fix_bz_rewind Gen.C02Cfg.tree_cfg) eqn:E1; [right; exists true; tauto|].
-  destruct (fix_bz_eof Gen.C02Cfg.tree_cfg) eqn:E2; [right; exists true; tauto|].
-  destruct (fix_here Gen.C02Cfg.tree_cfg) eqn:E3; [right; exists true; tauto|].
-  destruct (fix_text_pseudo Gen.C02Cfg.tree_cfg) eqn:E4; [right; exists true; tauto|].
-  destruct (fix_leak Gen.C02Cfg.tree_cfg) eqn:E5; [right; exists true; tauto|].
-  destruct (fix_negseek Gen.C02Cfg.tree_cfg) eqn:E6; [right; exists true; tauto|].
-  left. destruct Gen.C02Cfg.tree_cfg. cbn in *. subst. reflexivity.
-Qed.
